@@ -54,7 +54,10 @@ def gen_group(rng, depth, inherited):
     for n in list(dims):
         if rng.random() < 0.4 and n not in used:
             used.add(n)
-            vars_.append((n, "f8", [n], {"axis": n.upper()}, False))
+            cattrs = {"axis": n.upper()}
+            if rng.random() < 0.4:
+                cattrs[rng.choice(["scale_factor", "add_offset"])] = rng.choice([0.5, 10.0])
+            vars_.append((n, rng.choice(["f8", "f8", "f4", "i4", "i2"]), [n], cattrs, rng.random() < 0.3))
     subs = []
     if depth > 0:
         for g in rng.sample(GROUPS, rng.randint(0, 2)):
@@ -86,10 +89,13 @@ def write_nc(path, spec, rng):
                 data = np.array([bytes([97 + (i % 26)]) for i in range(cnt)], dtype="S1").reshape(shape)
             elif ty[0] == "f":
                 data = (np.arange(cnt) * 0.75 - 2).astype(ty).reshape(shape)
+                if fillv and rng.random() < 0.7:
+                    data = data.copy()
+                    data.flat[cnt // 2] = 99
             else:
                 info = np.iinfo(ty)
                 data = ((np.arange(cnt) * 7 + rng.randint(0, 5)) % (int(info.max) - 1)).astype(ty).reshape(shape)
-                if fillv and cnt > 1:
+                if fillv and (cnt > 1 or rng.random() < 0.7):       # a stored value equal to the fill value is still the stored value
                     data.flat[cnt // 2] = 99
             v[...] = data
             for k, a in attrs.items():
@@ -300,9 +306,17 @@ def main():
                     f = {">": operator.gt, "<": operator.lt, ">=": operator.ge, "<=": operator.le, "=": operator.eq, "!=": operator.ne}[op]
                     keep = [row for row in norm if f(row[j], thr)]
                     sel = "&sequence.%s%s%s" % (names[j], op, repr(thr) if thr != int(thr) else "%d" % thr)
-                if not keep:
-                    continue
-                ce = ",".join("sequence.%s" % names[j] for j in cols) + sel
+                # a record range counts the records that pass the selection, not the lines of the file
+                slab = ""
+                if rng.random() < 0.5:
+                    a_ = rng.randint(0, 2)
+                    st_ = rng.randint(1, 2)
+                    b_ = rng.randint(a_, 5)
+                    slab = "[%d:%d:%d]" % (a_, st_, b_)
+                    keep = keep[a_:b_ + 1:st_]
+                items = ["sequence.%s" % names[j] for j in cols]
+                items[0] = "sequence%s.%s" % (slab, names[cols[0]])
+                ce = ",".join(items) + sel
                 stats["csv_requests"] += 1
                 try:
                     res = open_dods_url("http://localhost:8001/t.dods?" + ce, application=h)
